@@ -12,6 +12,7 @@
 //verif:hook core/peer IDFromPublicKey
 //verif:replace (net/http.Header).Get vC19headerGet
 //verif:shard VerifC19cClient 12
+//verif:obligation C19.f the server handshake object reused from a pool: after Reset - whatever the previous request got to: any state, parsed but never run or run - no state, parameter or client identity of the previous exchange is left, and a following request without Authorization header reports no peer ID
 //verif:obligation C19.a server: PeerIDAuthHandshakeServer.Run followed by PeerID reports a client peer ID only if (challenge flow) the opaque state authenticated under the server's HMAC, is a challenge (not a token), is not older than 5 minutes, carries the request's hostname, and the client's signature over (that state's challenge, the server's public key, the hostname) verifies under the key whose ID is reported - the key bound in the state for client-initiated handshakes, otherwise the presented one; or (bearer flow) the token authenticated under the HMAC, is a token, and is not older than TokenTTL, and the ID is the token's
 //verif:obligation C19.b genDataToSign is injective: a reference parser recovers every (key, value) part and consumes the whole buffer for value lengths crossing the 127/128 varint edge
 //verif:obligation C19.c client: after every ParseHeader / Run step of both flows, PeerID / ServerAuthenticated answer only if a signature over (the client's current challenge, the client's key, the hostname) verified under the very key whose peer ID is reported, and a server key once learned is never replaced
@@ -119,6 +120,7 @@ func VerifC19aServer() {
 	vC19keys = map[string]*vC19key{"ABC": kA, "bound": kB}
 	// which parameters the request carries
 	hasSig, hasOpaque, hasBearer, hasChalSrv, hasPub := vBool(), vBool(), vBool(), vBool(), vBool()
+	hasChalCli := vBool() // the request also carries a challenge-client parameter of its own (a recorded one, of the right length)
 	VerifHook_params_parsePeerIDAuthSchemeParams = func(p *params, hv []byte) error {
 		if hasSig {
 			p.sigB64 = vC19b64
@@ -134,6 +136,9 @@ func VerifC19aServer() {
 		}
 		if hasPub {
 			p.publicKeyB64 = vC19b64
+		}
+		if hasChalCli {
+			p.challengeClient = []byte("old-challenge") // as long as the one in the opaque state
 		}
 		return nil
 	}
@@ -355,4 +360,29 @@ func VerifC19cClient() {
 			vAssert(!h.ServerAuthenticated(), "PeerID and ServerAuthenticated agree")
 		}
 	}
+}
+
+// C19.f: Reset between requests forgets everything, whatever the previous request got to
+func VerifC19fResetForgetsThePreviousRequest() {
+	defer vC19remove()
+	vC19install(time.Unix(0, 1<<50))
+	h := &PeerIDAuthHandshakeServer{Hostname: "example.com", PrivKey: &vC19priv{pub: &vC19key{name: "server"}}, TokenTTL: time.Hour, Hmac: vC19hmac{}}
+	// a previous request on this (pooled) handshake object: parsed, and possibly never run (the connection dropped,
+	// the handler bailed out early) or run to the end
+	states := []peerIDAuthServerState{peerIDAuthServerStateVerifyBearer, peerIDAuthServerStateVerifyChallenge, peerIDAuthServerStateSignChallenge}
+	h.state = states[vCase(3)]
+	h.p = params{bearerTokenB64: vC19b64, sigB64: vC19b64, opaqueB64: vC19b64, publicKeyB64: vC19b64, challengeClient: []byte("c"), challengeServer: []byte("s")}
+	h.opaque = opaqueState{IsToken: vBool(), PeerID: "previous-client", ChallengeClient: "previous-challenge", Hostname: "example.com", CreatedTime: time.Unix(0, 1<<50)}
+	h.ran = vBool()
+	if !h.ran {
+		vCover("previous-request-parsed-but-never-run")
+	}
+	h.Reset()
+	vAssert(!h.ran && h.state == 0 && h.opaque.PeerID == "" && h.opaque.ChallengeClient == "", "after Reset nothing of the previous exchange is left in the state")
+	vAssert(h.p.bearerTokenB64 == nil && h.p.sigB64 == nil && h.p.opaqueB64 == nil && h.p.publicKeyB64 == nil && h.p.challengeClient == nil && h.p.challengeServer == nil, "after Reset none of the previous request's parameters is left")
+	// the next request carries no Authorization header at all
+	vAssert(h.ParseHeaderVal(nil) == nil, "an anonymous request parses")
+	h.Run()
+	id, err := h.PeerID()
+	vAssert(err != nil && id == "", "an anonymous request is never reported as the client of an earlier request")
 }
